@@ -139,6 +139,30 @@ def check_case(res, keys, eq, wc, rng, tag):
             return r
     if set(r["ok"]) != set(keys):
         res.violations.append({"what": "result has entries for non-keys", "input": inp, "sig": "C07:junk", "cmd": cmd})
+    # other representations of the same link collections (tuples, one fresh set per item, ONE shared empty set / list for all the
+    # items without links): the result must be the same and the caller's collections must come back unchanged
+    rep = rng.choice(["tuple", "set", "shared-empty-set", "shared-empty-list"])
+    shared = set() if rep == "shared-empty-set" else []
+    def conv(d):
+        if rep == "tuple":
+            return {k: tuple(d[k]) for k in keys}
+        if rep == "set":
+            return {k: set(d[k]) for k in keys}
+        return {k: ((set(d[k]) if rep == "shared-empty-set" else list(d[k])) if d[k] else shared) for k in keys}
+    e3, w3 = conv(eq), conv(wc)
+    snap = ({k: sorted(map(repr, e3[k])) for k in keys}, {k: sorted(map(repr, w3[k])) for k in keys})
+    try:
+        from peppercompiler.design.constraints import propagate_constraints as _pc
+        ea3, wa3 = _pc(e3, w3)
+        r3 = {"ok": {k: (set(ea3[k]), set(wa3[k])) for k in ea3}}
+    except (AssertionError, KeyError) as e_:
+        r3 = {"err": type(e_).__name__}
+    res.count("representation:" + rep)
+    after = ({k: sorted(map(repr, e3[k])) for k in keys}, {k: sorted(map(repr, w3[k])) for k in keys})
+    if r3 != r or (after != snap and ea3 is not e3):
+        res.violations.append({"what": "with the link collections given as %s the result differs from the parity closure, or the caller's collections were changed" % rep,
+                               "input": dict(inp, representation=rep), "observed": repr(r3)[:400], "expected": repr({k: spec[k] for k in keys})[:400],
+                               "sig": "C07:representation:" + rep, "cmd": cmd + "  # link collections as " + rep})
     rs = run_store(keys, eq, wc, rng)
     if rs is not None and rs != r:
         bad = next((k for k in keys if "ok" not in rs or rs["ok"].get(k) != spec[k]), None)
